@@ -329,3 +329,7 @@ def island_seeds(u: Unit):
     seed_of = lambda c: (DU.kw_args(fc.node, c).get("seed") or (DU.pos_args(fc.node, c) or [None])[0])
     ok2 = len(gs) >= 1 and len(mk) >= 1 and all(seed_of(c) in ("self.pygmo_seed", "self._pygmo_seed") for c in gs) and all(DU.before(gs[0], m) for m in mk)
     u.static("calib.global_seed_first", ok2, fc.qualname, "pg.set_global_rng_seed(self.pygmo_seed) precedes the creation of the problem and archipelago")
+
+
+from . import calibreport as _CRc  # noqa: E402
+unit("C04", "calib.ctor")(_CRc.calibration_ctor_unit)      # Calibration.__init__ keeps the seeds / settings it is given (0 included)
